@@ -73,6 +73,10 @@ def drift(scenarios, events):
             first[ev["sc"]] = ev["result"]
     n, ex = 0, []
     for sc in scenarios:
+        if sum(1 for st in sc["sched"] if st.get("s") == "fault") > 1:
+            # pairs: whether the second fault is reached in the first sync depends on the first one; the error
+            # table is compared on single faults only (the monitors judge every scenario)
+            continue
         want = "error" if sc["expect"]["model"]["expectErr"] else "ok"
         got = first.get(sc["id"])
         if got != want:
